@@ -9,7 +9,7 @@ MANIFEST = dict(
           "For every entry point (tokenize, parse, serialise, both formatters, tree scan, text scan, extraction) and every input family (one long line, many lines, line/block comments, operator chains, wide lists, many statements, long literals and names, joins, CASE arms, UNION chains) "
           "the check measures three sizes on a geometric ladder and requires the growth exponent of the increments to stay below 1.5 (linear 1.0, n log n about 1.1, quadratic 2.0), attributing a violation to the function whose statements grow fastest. "
           "Model/Cost.v models the position conversion every token goes through — the stage that made tokenizing quadratic on the pinned tree — in its rescanning and its resume-point form with their loop-body counts; proved: both forms return the same line/column for every query list in any order, "
-          "one tokenizer run (increasing offsets) costs at most 1 + lines + 2*bytes loop iterations whatever the number of tokens, and the rescanning form costs exactly k + d*k*(k-1)/2 on k queries spaced d apart (quadratic). "
+          "one tokenizer run (increasing offsets) costs at most 1 + lines + 2*bytes loop iterations whatever the number of tokens, and the rescanning form costs exactly k + d*k*(k-1)/2 on k queries spaced d apart (quadratic); also restated from the other models: the token loop needs at most |bs|+1 iterations, the statement loops at most |tokens|+1, the extractors visit each node once. "
           "The model is tied to the code on every run: real toSQLPosition answers for forward, backward and scrambled query lists are compared with the model's, and the measured loop-body executions inside toSQLPosition must respect the proved bound."),
     note=common.BASE_NOTE + "Statement counts are the work measure (not CPU time); stages other than position conversion are covered by measurement on the family catalogue, not by a theorem; sizes explored are stated in the evidence.",
     design="6/C20")
@@ -78,12 +78,14 @@ def loop_lines(relfile, func):
 def run(tier):
     rp = Report("C20", tier)
     rng = random.Random(common.seed())
-    theorems = ["Props.C20.C20_resume_point_is_rescan", "Props.C20.C20_position_work_linear", "Props.C20.C20_rescan_quadratic_refuted"]
+    theorems = ["Props.C20.C20_resume_point_is_rescan", "Props.C20.C20_position_work_linear", "Props.C20.C20_rescan_quadratic_refuted",
+                "Props.C20.C20_tokenizer_iterations_linear", "Props.C20.C20_statement_loop_iterations_linear", "Props.C20.C20_collect_visits_linear"]
     try:
         with common.Lock():
             common.stage_harness()
             common.stage_harness(cover=True)
-            ok_inst, ok_props, _, logs = common.coq_stage(rp, ["theories/Proofs/CostP.vo"], "theories/Props/C20.v", theorems)
+            common.emit_all_gen()
+            ok_inst, ok_props, _, logs = common.coq_stage(rp, ["theories/Proofs/CostP.vo", "theories/Proofs/LexerP.vo", "theories/Proofs/LoopsP.vo", "theories/Proofs/ExtractP.vo"], "theories/Props/C20.v", theorems)
     except common.StageError as e:
         return common.stage_fail(rp, e)
     if not ok_inst or not ok_props:
@@ -103,7 +105,7 @@ def run(tier):
     for lad in ladders:
         for e in ENTRIES:
             for f in FAMILIES:
-                if (e, f, lad[0]) not in by:
+                if any((e, f, k) not in by for k in lad):
                     continue
                 rs = [by[(e, f, k)] for k in lad]
                 bad = [r for r in rs if "total" not in r]
